@@ -117,6 +117,21 @@ class _Filterer(object):
                 (set(search.keys()) - {'$ne', '$nin'})
             has_candidates = False
 
+            # The operators are checked whether or not the key leads to a value.
+            is_ops_filter = search and isinstance(search, dict) and \
+                all(key.startswith('$') for key in search.keys())
+            if is_ops_filter:
+                if '$options' in search and '$regex' in search:
+                    search = _combine_regex_options(search)
+                unknown_operators = set(search) - set(self._operator_map) - {'$not'}
+                if unknown_operators:
+                    not_implemented_operators = unknown_operators & _NOT_IMPLEMENTED_OPERATORS
+                    if not_implemented_operators:
+                        raise NotImplementedError(
+                            "'%s' is a valid operation but it is not supported by Mongomock "
+                            'yet.' % list(not_implemented_operators)[0])
+                    raise OperationFailure('unknown operator: ' + list(unknown_operators)[0])
+
             if search == {'$exists': False} and not iter_key_candidates(key, document):
                 continue
 
@@ -129,19 +144,7 @@ class _Filterer(object):
 
             for doc_val in iter_key_candidates(key, document):
                 has_candidates |= doc_val is not NOTHING
-                is_ops_filter = search and isinstance(search, dict) and \
-                    all(key.startswith('$') for key in search.keys())
                 if is_ops_filter:
-                    if '$options' in search and '$regex' in search:
-                        search = _combine_regex_options(search)
-                    unknown_operators = set(search) - set(self._operator_map) - {'$not'}
-                    if unknown_operators:
-                        not_implemented_operators = unknown_operators & _NOT_IMPLEMENTED_OPERATORS
-                        if not_implemented_operators:
-                            raise NotImplementedError(
-                                "'%s' is a valid operation but it is not supported by Mongomock "
-                                'yet.' % list(not_implemented_operators)[0])
-                        raise OperationFailure('unknown operator: ' + list(unknown_operators)[0])
                     is_match = all(
                         operator_string in self._operator_map
                         and self._operator_map[operator_string](doc_val, search_val)
